@@ -679,6 +679,82 @@ def check_node_caches(P, ctx):
     ctx.floor(rule, 2)
 
 
+class CtorMismatch(Exception):
+    pass
+
+
+def check_refused_constructor(P, ctx):
+    """a constructor that refuses its arguments leaves an object that is already registered with the collector: the destructor will run on
+    it.  Table's constructor evaluated (cint) on a zeroed object with an odd number of arguments — FormatError —, then the destructor on
+    what it left: it must not walk slots that were never allocated."""
+    from . import cint
+    rule = 'C12.refused-constructor'
+    newf, delf = P.slot('Table', 'New', 'construct_with'), P.slot('Table', 'New', 'destruct')
+    fn, fd = P.fn(newf), P.fn(delf)
+    ctx.fn(fn)
+    ctx.fn(fd)
+    bad, unsup = None, None
+    for nargs in (3, 5):
+        atoms = {('global', 'NULL'): 0, ('global', 'Terminal'): 7777}
+        for f in P.records['Table']['fields']:
+            atoms[('elem', 'self', 0, f[0])] = 0
+
+        def call(nm, e, it, nargs=nargs):
+            if nm == 'cast':
+                return it.ev(e[2][0])
+            if nm == 'get' and it.ev(e[2][0]) == 9400:
+                k = it.ev(e[2][1])
+                k = k[2][0] if isinstance(k, tuple) and k[0] == 'stack' else k
+                return 8500 + k if isinstance(k, int) and k < 2 else 7000 + (k if isinstance(k, int) else 0)
+            if nm == 'size':
+                return 8
+            if nm == 'Table_Ideal_Size':
+                return 5          # the smallest table (the global prime table is not part of this evaluation)
+            if nm == 'len' and it.ev(e[2][0]) == 9400:
+                return nargs
+            if nm in ('calloc', 'malloc'):
+                return 900000 + 10000 * len([1 for k_ in it.atoms if k_ == 'x'])
+            if nm == 'free':
+                return 0
+            if nm == 'destruct':
+                raise CtorMismatch('destructs a key or value of a table that was never filled')
+            raise cint.NoEval('call %s' % nm)
+
+        def mem(a, it):
+            if isinstance(a, int) and a < 4096:
+                raise CtorMismatch('reads slot storage through a NULL store (address %d): the slot count says there are slots, the store was never allocated' % a)
+            return 0
+        it = cint.CInt(P, fn, atoms=atoms, call=call, recurse=True, mem=mem, strict=True, max_steps=3000)
+        it.atoms = atoms
+        try:
+            r = it.run([('ep', 'self', 0), 9400])
+        except CtorMismatch as x:
+            bad = bad or 'constructor with %d arguments: %s' % (nargs, x)
+            continue
+        if r[0] == 'stuck':
+            unsup = unsup or 'constructor with %d arguments: %s' % (nargs, r[1])
+            continue
+        if not (r[0] == 'term' and r[1] == ('throw', 'FormatError')):
+            bad = bad or 'constructor with %d arguments (not key/value pairs) does not raise FormatError' % nargs
+            continue
+        it2 = cint.CInt(P, fd, atoms=atoms, call=call, recurse=True, mem=mem, strict=True, max_steps=3000)
+        it2.atoms = atoms
+        try:
+            r2 = it2.run([('ep', 'self', 0)])
+        except CtorMismatch as x:
+            bad = bad or 'after the constructor refused %d arguments, the destructor %s' % (nargs, x)
+            continue
+        if r2[0] == 'stuck':
+            unsup = unsup or 'destructor after a refused constructor: %s' % (r2[1],)
+        elif r2[0] != 'ret':
+            bad = bad or 'after the constructor refused %d arguments, the destructor does not return' % nargs
+    if unsup and not bad:
+        ctx.undecided(rule, newf, site(fn), 'leaves the evaluated fragment: ' + unsup)
+    else:
+        ctx.check(bad is None, rule, newf, site(fn), 'a Table constructor that refuses its arguments leaves an object the destructor can take (no slot count without a store)', [bad] if bad else None)
+    ctx.floor(rule, 1)
+
+
 def run(ctx, load):
     P = load(UNITS, 'default')
     ctx.stats['units'] = set(UNITS)
@@ -701,6 +777,7 @@ def run(ctx, load):
     check_refusal_covers_mutation(P, ctx, 'src/Tuple.c', 'items', 'C12.refusal-first', 'Tuple')
     ctx.floor('C12.refusal-first', 14)
     check_table_resize_refusal(P, ctx)
+    check_refused_constructor(P, ctx)
     check_node_caches(P, ctx)
     # a missing key, at every size including a table whose slots were released (shared with C02 / C03, decided by evaluation there)
     from . import rules_c02, rules_c03
